@@ -57,6 +57,15 @@ chk("C14", "treemc", "model_checking",
     "Bounded-exhaustive trees x path spellings x single-entry operations (create x 7 inode kinds, create_file x flags, remove_file, remove_dir, rename x flags, C entry points with raw S_IFMT): every case on a rebuilt tree on both backends and on an oracle twin where the harness resolves the parent with openat2(RESOLVE_IN_ROOT) and issues the single raw *at call; errno and canonical resulting filesystem must be identical (this is the frame condition); trailing slash => invalid argument (or the lookup error of the part before it) and no effect.",
     TM_NOTE, "explicit-state enumeration of operation applications against a reference twin (state = canonical tree)", "DESIGN.md 4/C14")
 
+chk("C09", "treemc", "model_checking",
+    "Breadth-first search over histories of rename/replace/unlink/recreate/exchange/move-out steps applied to the handle's path between resolve and reopen, for every inode type, descriptor number (0 included), flag set (incl. creation flags), both backends and both entry points; at every reached state the reopen result is compared with the kernel's own answer for re-opening a descriptor the harness pins on the same inode (identity, access mode, status flags, close-on-exec; ELOOP for symlink handles; creation flags refused without effect).",
+    TM_NOTE + " Host-/proc over-mount states are exercised by C06's engine.",
+    "explicit-state search over operation histories with the real reopen as transition probe and a kernel oracle", "DESIGN.md 4/C09")
+chk("C17", "treemc", "exploration",
+    "Exhaustive enumeration of (exported function x invalid-argument class) and of (link length x caller buffer size incl. NULL) with canaries around the buffer; oracle from the statement: error id below -4095 with EINVAL/ENOSYS, consumed exactly once, descriptor table and filesystem untouched; full length returned, exactly min(len,size) bytes copied.",
+    "The worker calls the exported extern \"C\" symbols of the rlib directly (the ABI a C caller uses); agreement of include/pathrs.h with those symbols is C18 (not claimed).",
+    "exhaustive enumeration of a finite argument space", "DESIGN.md 4/C17")
+
 not_applicable = [
     {"property_id": "C18", "reason": "relates static artefacts (exported symbols, header, Go/Python binding declarations); there is no behaviour, schedule or state space to enumerate - deciding it is translation validation / static comparison, a different family (DESIGN.md section 5)"},
 ]
